@@ -159,6 +159,7 @@ Inductive subseq {X : Type} : list X -> list X -> Prop :=
 Record params := mkParams {
   p_drain : bool;    (* a final swap-and-write of currentBuffer_/buffers_ follows the loop *)
   p_fit_gt : bool;   (* AsyncLogging::append tests `currentBuffer_->avail() > len` (false: `>=`) *)
+  p_copy_gt : bool;  (* FixedBuffer::append copies iff `avail() > len` (false: `>=`) *)
   p_cap : Z;         (* kLargeBuffer *)
   p_thr : nat;       (* buffersToWrite.size() > 25 *)
   p_keep : nat;      (* erase(begin()+2, end()) *)
@@ -167,7 +168,8 @@ Record params := mkParams {
 
 (* `size() >= L` is `size() > L-1` *)
 Definition current_params : params :=
-  mkParams AsyncLogging_drain_after_loop AsyncLogging_append_fit_is_gt LogStream_kLargeBuffer
+  mkParams AsyncLogging_drain_after_loop AsyncLogging_append_fit_is_gt FixedBuffer_append_copy_is_gt
+           LogStream_kLargeBuffer
            (Z.to_nat (if AsyncLogging_drop_threshold_is_gt then AsyncLogging_drop_threshold
                       else AsyncLogging_drop_threshold - 1))
            (Z.to_nat AsyncLogging_drop_keep)
@@ -175,7 +177,13 @@ Definition current_params : params :=
 
 (* the same shape with / without the drain after the loop (the two trees of finding F-8) *)
 Definition with_drain (d : bool) (p : params) : params :=
-  mkParams d (p_fit_gt p) (p_cap p) (p_thr p) (p_keep p) (p_rkeep p).
+  mkParams d (p_fit_gt p) (p_copy_gt p) (p_cap p) (p_thr p) (p_keep p) (p_rkeep p).
+
+(* the two sites that decide about room agree: whenever AsyncLogging::append puts a record into the
+   current buffer (its fit test passes), FixedBuffer::append really copies it.  `>`/`>`, `>`/`>=` and
+   `>=`/`>=` agree; `>=`/`>` does not (a record of exactly the space left is accepted and then silently
+   not copied) *)
+Definition sites_agree (p : params) : bool := p_fit_gt p || negb (p_copy_gt p).
 
 Definition params_ok (p : params) : bool :=
   (2 <=? p_keep p)%nat && (2 <=? p_rkeep p)%nat && (p_keep p <=? p_thr p)%nat && (0 <? p_cap p).
@@ -189,8 +197,10 @@ Section Async.
   Record buf := mkBuf { recs : list R; blen : Z }.
   Definition empty_buf : buf := mkBuf [] 0.
   (* FixedBuffer::append: copies only if avail() > len, otherwise silently nothing *)
+  Definition copies (r : R) (b : buf) : bool :=
+    if p_copy_gt P then rlen r <? p_cap P - blen b else rlen r <=? p_cap P - blen b.
   Definition buf_append (b : buf) (r : R) : buf :=
-    if rlen r <? p_cap P - blen b then mkBuf (recs b ++ [r]) (blen b + rlen r) else b.
+    if copies r b then mkBuf (recs b ++ [r]) (blen b + rlen r) else b.
 
   (* what the back-end does with LogFile output / stderr *)
   Inductive oev :=
@@ -439,6 +449,28 @@ Section Async.
       pc (be s) = PDone /\
       out (gh s) = final_out (gh s) /\
       dropped (gh s) = flat_map dropped_of (batches (gh s)).
+
+  (* ---- termination of stop(): a rank that every back-end step decreases once running_ is false ----
+     (an upper bound on the number of back-end steps to PDone if no front-end interferes; an append
+     adds at most one buffer, hence at most 1) *)
+  Definition stop_rank (s : ast) : nat :=
+    let B := length (bufs (sh s)) in
+    match pc (be s) with
+    | PDone => 0
+    | PWrite todo true => length todo + 1
+    | PFinalLock => B + 3
+    | PStart => B + 4
+    | PWrite todo false => length todo + 1 + (B + 4)
+    | PWriteAnn batch => length batch + 3 + (B + 4)
+    | PAnn batch => length batch + 4 + (B + 4)
+    | PWait => B + 10
+    | PLock => B + 11
+    end%nat.
+
+  Definition count_back (ls : list label) : nat :=
+    length (filter (fun l => match l with LBack => true | _ => false end) ls).
+  Definition count_app (ls : list label) : nat :=
+    length (filter (fun l => match l with LApp _ => true | _ => false end) ls).
 End Async.
 
 Arguments mkBuf {R} recs blen. Arguments recs {R} b. Arguments blen {R} b.
@@ -458,6 +490,7 @@ Arguments flat {R} l.
 Arguments written_of {R} o.
 Arguments taken {R} g.
 Arguments pc_final {R} p.
+Arguments stop_rank {R} s.
 Arguments per_thread {R} t g.
 
 (* ---- (ii) on top of (i): the back-end's output events as LogFile operations (specification only) ---- *)
@@ -480,6 +513,43 @@ Section Compose.
   | eos_cons e o ch es os chs : ev_op e o ch -> evs_ops es os chs -> evs_ops (e :: es) (o ++ os) (ch :: chs).
 End Compose.
 Arguments buf_bytes {R A} bytes b.
+
+(* what the files must contain once the back-end has finished, batch by batch: a batch within the
+   threshold contributes the bytes of all its buffers; a batch over the threshold contributes ONE
+   announcement line (any text) followed by the bytes of its first p_keep buffers - buffers
+   p_keep+1..n are the announced drop; the final batch (drain after the loop) contributes all its bytes *)
+Section EndToEnd.
+  Variables (R A : Type) (bytes : R -> list A) (P : params).
+
+  Definition bufs_bytes (l : list (buf R)) : list A := concat (map (buf_bytes bytes) l).
+
+  Inductive stream_ok : list (list (buf R)) -> list (buf R) -> list A -> Prop :=
+  | so_final fb : stream_ok [] fb (bufs_bytes fb)
+  | so_whole b bs fb st : (length b <= p_thr P)%nat -> stream_ok bs fb st ->
+                          stream_ok (b :: bs) fb (bufs_bytes b ++ st)
+  | so_drop b bs fb st line : (p_thr P < length b)%nat -> stream_ok bs fb st ->
+                              stream_ok (b :: bs) fb (line ++ bufs_bytes (firstn (p_keep P) b) ++ st).
+End EndToEnd.
+Arguments bufs_bytes {R A} bytes l.
+
+(* ---- file names (LogFile::getLogFileName): basename ++ strftime(".%Y%m%d-%H%M%S.", gmtime(now)) ++
+   hostname ++ ".<pid>.log"; the time stamp is an environment function [stamp] ---- *)
+Section Names.
+  Variables (X : Type) (ltX : X -> X -> Prop).
+
+  (* lexicographic order (what `ls`, sort(1) and the oracle use to put the files in creation order) *)
+  Inductive lex_lt : list X -> list X -> Prop :=
+  | lex_nil x l : lex_lt [] (x :: l)
+  | lex_head x y l1 l2 : ltX x y -> lex_lt (x :: l1) (y :: l2)
+  | lex_tail x l1 l2 : lex_lt l1 l2 -> lex_lt (x :: l1) (x :: l2).
+
+  Definition fname (stamp : Z -> list X) (base host pidlog : list X) (now : Z) : list X :=
+    base ++ stamp now ++ host ++ pidlog.
+End Names.
+
+(* the configuration a LogFile gets from its constructor's default arguments (regenerated) *)
+Definition default_cfg (rollSize : Z) : cfg :=
+  mkCfg rollSize LogFile_default_flushInterval LogFile_default_checkEveryN.
 
 (* ---- instance used by the extracted runner: a record = (thread, sequence number, length) ---- *)
 Definition xrec := (nat * nat * Z)%type.
